@@ -1078,7 +1078,9 @@ pub fn truncate(s: &str, n: usize) -> String {
 }
 
 fn write_evidence(ctx: &Ctx, spec: &PropSpec, stats: &Stats, wall: f64, violations: u64) {
-    let dir = ctx.root.join("evidence");
+    // VERIF_EVIDENCE_DIR: used by the mutant scripts, so that runs against seeded changes do not
+    // overwrite the evidence of the tree under test
+    let dir = std::env::var_os("VERIF_EVIDENCE_DIR").map(PathBuf::from).unwrap_or_else(|| ctx.root.join("evidence"));
     let _ = std::fs::create_dir_all(&dir);
     let exhaustive_subs: Vec<&str> = stats
         .subs
